@@ -8,6 +8,11 @@ CHECKS = {
     technique='deterministic simulation: seeded thread-schedule search + source fault injection vs sequential spec'),
 }
 
+CHECKS['C11'] = dict(engine='fsworld', design='DESIGN.md section 6, C11',
+    text='Seeded search over save/restore histories on a simulated disk with a crash (optionally with a torn write) or an I/O error injected at a chosen file operation, exhaustive crash sweeps (every file operation x every torn variant) of sampled saves each followed by restart, post-crash checks, retry and a later save, and asynchronous saves whose worker-thread file operations interleave with the main thread under the seeded scheduler; oracles: from-scratch retention-policy model, old-or-new rule after interruption, byte-exact restore of every retained step, async == sync directory. The crash sweeps are exhaustive per sampled history; histories themselves are sampled.',
+    note='Trusted: SimDisk/SimGFile stand-ins for os/shutil/open and tensorflow.io.gfile (differentially tested), the scheduler stand-in for concurrent.futures.thread, process-death crash model (no power-loss semantics). One open known finding (prefix ending in -, . or digit) is listed in known_findings.json.',
+    technique='deterministic simulation: simulated disk with crash/torn-write/IO-error injection + crash-point sweeps + seeded async schedules vs retention model')
+
 NA = {
   'C02': 'variable tree mirrors module tree: relation between stateless init/apply/lazy_init/bind results on the same arguments; ' + PURE,
   'C06': 'lifted scan/vmap = loop/stack: configuration-space equivalence of a pure function; ' + PURE,
@@ -23,11 +28,13 @@ NA = {
 
 # claimed in DESIGN.md, check not built yet (moved to CHECKS as each engine lands)
 _P = 'planned as a claimed check in DESIGN.md section 6 but its engine is not built yet in this commit; not claimed until it runs'
-PENDING = {p: _P for p in ['C01', 'C03', 'C04', 'C05', 'C09', 'C11', 'C15', 'C17', 'C18']}
+PENDING = {p: _P for p in ['C01', 'C03', 'C04', 'C05', 'C09', 'C15', 'C17', 'C18']}
 
 ENGINES = [
-  dict(name='kernel', path='sim/kernel.py', serves_properties=['C20'], kind_free_text='seed -> JSON plan -> event-log digest; worker processes; ddmin shrinker; replay; evidence'),
-  dict(name='sched', path='sim/sched.py', serves_properties=['C20'], kind_free_text='baton-passing deterministic thread scheduler; stand-ins for threading and concurrent.futures.thread'),
+  dict(name='kernel', path='sim/kernel.py', serves_properties=['C11', 'C20'], kind_free_text='seed -> JSON plan -> event-log digest; worker processes; ddmin shrinker; replay; evidence'),
+  dict(name='sched', path='sim/sched.py', serves_properties=['C11', 'C20'], kind_free_text='baton-passing deterministic thread scheduler; stand-ins for threading and concurrent.futures.thread'),
+  dict(name='disk', path='sim/disk.py', serves_properties=['C11'], kind_free_text='in-memory disk with crash / torn-write / I/O-error injection; stand-ins for os, shutil, open, glob and tensorflow.io.gfile'),
+  dict(name='fsworld', path='sim/props/c11.py', serves_properties=['C11'], kind_free_text='checkpoint directory histories with crashes, restarts, retries, sweeps and async saves against a retention-policy model'),
   dict(name='pipeworld', path='sim/props/c20.py', serves_properties=['C20'], kind_free_text='source -> PrefetchIterator / prefetch_to_device -> consumer under the thread scheduler with source fault injection'),
 ]
 
